@@ -6,6 +6,9 @@
 // interrupt-disable register and acknowledges. Oracle: ThreadSanitizer (any report fails the run), no invented or
 // reordered values on either side, after the host thread is joined a bounded single-threaded drain must make the last value
 // of every channel visible on both sides and must have entered the handler, and nothing deadlocks (watchdog = inconclusive).
+// The handler reads a generated subset of the channels (the others stay full), and after the drain one more send per channel
+// must each be followed by a handler entry (and a host callback where the DSP echoes): "every send with interrupts enabled is
+// followed by at least one interrupt delivery", also into a mailbox that is still full.
 #include <atomic>
 #include <map>
 #include <mutex>
@@ -30,6 +33,7 @@ struct Case {
     std::vector<Op> ops;
     std::vector<unsigned> slices;
     unsigned reenter = 0; // bit0: data handlers call RecvData, bit1: semaphore handler calls GetSemaphore, bit2: data handler sends
+    unsigned readmask = 7; // channels whose CMDi the DSP handler reads and echoes; the others stay full after their first send
 };
 
 uint16_t W(const std::string& form, const std::vector<long>& v) {
@@ -40,7 +44,7 @@ uint16_t W(const std::string& form, const std::vector<long>& v) {
 }
 
 std::string encode(const Case& c) {
-    std::string s = "reenter " + vf::hex(c.reenter) + "\nslices";
+    std::string s = "reenter " + vf::hex(c.reenter) + "\nreadmask " + vf::hex(c.readmask) + "\nslices";
     for (auto x : c.slices)
         s += " " + vf::hex(x);
     s += "\n";
@@ -56,6 +60,8 @@ Case decode(const std::string& text) {
             continue;
         if (t[0] == "reenter" && t.size() >= 2)
             c.reenter = (unsigned)vf::unhex(t[1]);
+        else if (t[0] == "readmask" && t.size() >= 2)
+            c.readmask = (unsigned)vf::unhex(t[1]) & 7;
         else if (t[0] == "slices")
             for (size_t i = 1; i < t.size(); ++i)
                 c.slices.push_back((unsigned)vf::unhex(t[i]));
@@ -75,7 +81,7 @@ Case decode(const std::string& text) {
 
 const uint16_t kCounter = 0x2000, kLastCmd = 0x2100;
 
-void load_program(Teakra::Teakra& t) {
+void load_program(Teakra::Teakra& t, unsigned readmask) {
     std::vector<uint16_t> main = {W("eint()", {}), W("brr(RelAddr7,CondValue)", {0x7F, 0})};
     for (size_t i = 0; i < main.size(); ++i)
         t.ProgramWrite(0x0100 + (uint32_t)i, main[i]);
@@ -96,6 +102,8 @@ void load_program(Teakra::Teakra& t) {
         h.push_back(v);
     };
     for (uint16_t i = 0; i < 3; ++i) {
+        if (!((readmask >> i) & 1))
+            continue; // this channel is never read: its mailbox stays full, later sends must still interrupt
         load(0x80C2 + 4 * i); // CMDi (clears the ready flag)
         store(kLastCmd + i);
         store(0x80C0 + 4 * i); // REPLYi
@@ -120,7 +128,7 @@ vf::Result check(const Case& c) {
     static Teakra::Teakra* instance = new Teakra::Teakra(Teakra::UserConfig{}); // construction is slow under TSan: one per process
     Teakra::Teakra& t = *instance;
     t.Reset();
-    load_program(t);
+    load_program(t, c.readmask);
     t.MMIOWrite(0x206, 0x4000); // IRQ 14 (APBP) -> int0
     auto& regs = t.GetRegisterState();
     regs.pc = 0x0100;
@@ -226,7 +234,7 @@ vf::Result check(const Case& c) {
     std::string what = std::to_string(c.ops.size()) + " host ops, " + std::to_string(sends) + " sends, " + std::to_string(entries) + " handler entries, overlap " +
                        std::to_string(overlap);
     for (int i = 0; i < 3; ++i) {
-        if (!seq[i])
+        if (!seq[i] || !((c.readmask >> i) & 1))
             continue;
         unsigned on_dsp = t.DataRead((uint16_t)(kLastCmd + i), true);
         bool callback_sent = (c.reenter & 4) != 0; // a re-entrant send of 0 may legitimately be the last value
@@ -253,8 +261,44 @@ vf::Result check(const Case& c) {
     }
     if (sends && entries == 0)
         return vf::Result::fail("C19:no-interrupt", "no handler entry although " + std::to_string(sends) + " sends were made with the interrupt enabled (" + what + ")");
-    if (data_cb.load() == 0 && sends)
+    unsigned echoed_sends = 0;
+    for (unsigned i = 0; i < 3; ++i)
+        if ((c.readmask >> i) & 1)
+            echoed_sends += seq[i];
+    if (data_cb.load() == 0 && echoed_sends)
         return vf::Result::fail("C19:no-host-callback", "the DSP replied but no host data handler ran (" + what + ")");
+    // ---- "every send with interrupts enabled is followed by at least one interrupt delivery", made literal on the state the
+    // concurrent history left behind (full / empty mailboxes on both sides): one more send per channel, each followed by a
+    // bounded run; the DSP handler must be entered again, and where it echoes, a host data handler must run again
+    for (unsigned i = 0; i < 3; ++i) {
+        unsigned entries_before = t.DataRead(kCounter, true);
+        unsigned cb_before = data_cb.load();
+        bool was_full = !t.SendDataIsEmpty((uint8_t)i), reply_full = t.RecvDataIsReady((uint8_t)i);
+        last_sent[i] = ++seq[i];
+        t.SendData((uint8_t)i, (uint16_t)last_sent[i]);
+        for (int k = 0; k < 4; ++k)
+            t.Run(128);
+        unsigned entries_after = t.DataRead(kCounter, true);
+        std::string ctx = "channel " + std::to_string(i) + (was_full ? ", mailbox still full" : ", mailbox empty") + ", after " + std::to_string(c.ops.size()) +
+                          " concurrent host ops";
+        if (entries_after == entries_before)
+            return vf::Result::fail(std::string("C19:send-without-interrupt:dsp:") + (was_full ? "full" : "empty"),
+                                    "a SendData with the interrupt enabled was followed by no DSP handler entry within 512 cycles (" + ctx + ")");
+        if (((c.readmask >> i) & 1) && data_cb.load() == cb_before)
+            return vf::Result::fail(std::string("C19:send-without-interrupt:host:") + (reply_full ? "full" : "empty"),
+                                    "the DSP wrote a reply with the interrupt enabled but no host data handler ran (" + ctx +
+                                        (reply_full ? ", reply mailbox still full" : ", reply mailbox empty") + ")");
+        if ((c.readmask >> i) & 1) {
+            unsigned on_dsp = t.DataRead((uint16_t)(kLastCmd + i), true), echoed = t.PeekRecvData((uint8_t)i);
+            bool callback_sent = (c.reenter & 4) != 0;
+            if ((on_dsp != last_sent[i] || echoed != last_sent[i]) && !(callback_sent && (on_dsp == 0 || echoed == 0)))
+                return vf::Result::fail("C19:lost:epilogue", "the value of the final send was not observed: DSP saw " + vf::hex(on_dsp) + ", reply is " + vf::hex(echoed) +
+                                                                 ", sent " + vf::hex(last_sent[i]) + " (" + ctx + ")");
+        }
+        vf::klass(std::string("epilogue send into a ") + (was_full ? "still-full" : "empty") + " mailbox");
+        if ((c.readmask >> i) & 1)
+            vf::klass(std::string("epilogue reply into a ") + (reply_full ? "still-full" : "empty") + " reply mailbox");
+    }
     vf::klass(overlap >= 10 ? "schedule with real overlap (>= 10 observed DSP progress changes)" : "schedule with little overlap");
     if (c.reenter)
         vf::klass("re-entrant host callbacks");
@@ -288,8 +332,8 @@ int main(int argc, char** argv) {
     p.gen = [] {
         using namespace rc;
         return gen::map(gen::tuple(gen::container<std::vector<Op>>(genOp()), gen::container<std::vector<unsigned>>(gen::element<unsigned>(1, 1, 2, 3, 7, 16, 64, 200, 1000)),
-                                   vf::range<unsigned>(0, 8)),
-                        [](std::tuple<std::vector<Op>, std::vector<unsigned>, unsigned> t) {
+                                   vf::range<unsigned>(0, 8), gen::weightedOneOf<unsigned>({{1, gen::just(7u)}, {1, vf::range<unsigned>(0, 8)}})),
+                        [](std::tuple<std::vector<Op>, std::vector<unsigned>, unsigned, unsigned> t) {
                             Case c;
                             c.ops = std::get<0>(t);
                             // long schedules: repeat the generated list so that both threads really overlap
@@ -300,6 +344,7 @@ int main(int argc, char** argv) {
                                 c.ops.resize(400);
                             c.slices = std::get<1>(t);
                             c.reenter = std::get<2>(t);
+                            c.readmask = std::get<3>(t) & 7;
                             return c;
                         });
     };
